@@ -40,6 +40,10 @@ texts = st.one_of(
     st.builds(lambda p, r: p + r, st.sampled_from(["lyric ", "section "]), _joined),
     st.builds(lambda p, r: p + r, st.sampled_from(["lyric ", "section "]), _noquote),
     G.plain_text,
+    # names with a meaning to the games (candidates for special treatment)
+    st.sampled_from(["end", "end", "music_start", "music_end", "phrase_start", "phrase_end", "coda", "idle", "play",
+                     "crowd_lighters_fast", "section end", "lyric end", "End", "the end", "solo", "soloend",
+                     "Default", "section Intro", "lyric +"]),
     st.sampled_from(["lyric ", "section ", "lyric", "section", "", " ", '"', '""', "lyric \"", 'a" ',
                      'lyric a" ', "section lyric x", "lyric section x", " lyric x"]),
 )
